@@ -101,6 +101,9 @@ def run_prog_check(prop, props_files, tier, oracles, features=gen_prog.ALL, n_qu
             elif o == "c15":
                 for p_, msg, tag in proglayer.oracle_c15(evs, term, cs):
                     found.append((msg, tag))
+            elif o == "c17wake":
+                for p_, msg, tag in proglayer.oracle_c17_wake(evs, term, cs):
+                    found.append((msg, tag))
             elif o == "c07":
                 for p_, msg, tag in proglayer.oracle_c07(evs, term, cs):
                     found.append((msg, tag))
